@@ -426,6 +426,8 @@ func (e *env) propose(P *chainx.Node, name string, lim limits, newR func() (*cha
 			fail("backup-rejects-tx", fmt.Sprintf("%s: %v", tx.Hash().StringLE(), err))
 		}
 	}
+	// ... and as the real consensus service does it (r5_backup_test.go)
+	e.consensusCheck(P, R, sel, b, lim.SRIH, fail)
 	if err := R.BC.AddBlock(rb); err != nil {
 		fail("block-rejected-by-replica", err.Error())
 		return 0, 0, "", false
